@@ -1061,7 +1061,15 @@ func (vm *VirtualMachine) importModule(ctx context.Context, name string) (*objec
 	code := vm.loadCode(module.Code())
 	vm.activateCode(vm.fp+1, 0, code)
 	// Restore the previous frame when done
-	defer vm.resumeFrame(baseFP, baseIP, baseSP)
+	defer func() {
+		vm.resumeFrame(baseFP, baseIP, baseSP)
+		// resumeFrame keeps the value the module code evaluated to on the
+		// stack. It is not used: left there, it stays on the stack for good
+		// and shifts the operands of a from-import of several modules.
+		for vm.sp > baseSP {
+			vm.pop()
+		}
+	}()
 	// Evaluate the module code
 	if err := vm.eval(ctx); err != nil {
 		return nil, err
